@@ -154,6 +154,32 @@ theorem C20_single_byte_detected_concrete (body : Bytes) (v : Version) (i : Nat)
       (body.set i b ++ footerBytes decimalCodec { version := v, crc := crc32 body }) = .damaged :=
   C20_single_byte_detected decimalCodec C20_decimalCodec_good body v i hi b hb
 
+/-! ### what no 32-bit checksum can promise
+
+The property text says "any … truncation or extension of a segment file's body is detected".
+With the footer kept, that is false for CRC-32 (as for every 32-bit checksum): absorbing four
+bytes is a bijection on the CRC state, so every body has exactly one 4-byte extension with the
+same checksum. Concrete witness (replayed against the real `validate_checksum` by the harness,
+KNOWN_FINDINGS key `C20:crc32-collision-4-byte-extension`): -/
+
+theorem C20_extension_counterexample :
+    crc32 ([104, 101, 108, 108, 111] ++ [4, 204, 23, 200]) = crc32 [104, 101, 108, 108, 111]
+    ∧ validate decimalCodec
+        (([104, 101, 108, 108, 111] ++ [4, 204, 23, 200] : Bytes)
+          ++ footerBytes decimalCodec
+              { version := ⟨0, 26, 0, 7⟩, crc := crc32 [104, 101, 108, 108, 111] })
+        = .intact := by
+  decide +kernel
+
+/-- the same witness read as a truncation: cutting the last four body bytes goes unnoticed -/
+theorem C20_truncation_counterexample :
+    validate decimalCodec
+        (([104, 101, 108, 108, 111, 4, 204, 23, 200] : Bytes).take 5
+          ++ footerBytes decimalCodec
+              { version := ⟨0, 26, 0, 7⟩, crc := crc32 [104, 101, 108, 108, 111, 4, 204, 23, 200] })
+        = .intact := by
+  decide +kernel
+
 /-! ### non-vacuity: the hypotheses are met by concrete non-trivial states -/
 
 example : ∃ C, GoodCodec C := ⟨decimalCodec, C20_decimalCodec_good⟩
